@@ -2,6 +2,10 @@
 //! `--features output-port-v2`: the command-queue port) on a paused single-threaded
 //! tokio runtime, with real subscriber actors that record what their handler receives.
 //!
+//! `eng_outport --nodup` (output-port-v2 build only) creates the port through the cfg-gated hook
+//! `OutputPort::verif_with_duplicate_subscriptions(false)`: a later subscription of the same actor
+//! replaces the previous one instead of being added.
+//!
 //! `eng_outport --cap` prints the measured ring size of the port (largest burst into a
 //! parked forwarder that arrives completely; 0 = nothing is ever skipped) and exits.
 //!
@@ -17,6 +21,8 @@
 //!            R <a> | RF <a>   let a's parked pre_start return Ok / Err; settle
 //!            SS <a> <mod> <res> <mul> <add>   spawn_instant actor a whose pre_start subscribes
 //!                             ITSELF (same converter syntax) and then parks; settle
+//!            ST <a>           subscribe actor a through `OutputPortSubscriberTrait::subscribe_to_port`
+//!                             (converter k -> Some(Item::from(k)); at most one per actor)
 //!            D                drop the port (every handle of it); no settle. Only T/K/R/RF/H/G/O may follow
 //! Receivers: an actor with an R/RF op is spawned with `spawn_instant` before the first
 //! operation, its pre_start parked (status Starting) until R/RF; an actor with an SS op is
@@ -26,13 +32,33 @@ use std::collections::{BTreeMap, HashSet};
 use std::sync::{Arc, Mutex};
 use std::time::Duration;
 
+use ractor::port::OutputPortSubscriberTrait;
 use ractor::{Actor, ActorProcessingErr, ActorRef, OutputPort};
+use std::sync::atomic::{AtomicBool, Ordering};
 use std::collections::BTreeSet;
 use rv_harness::*;
 use tokio::sync::Notify;
 
 struct Item(u64, u64);
 impl ractor::Message for Item {}
+
+/// tag of items that arrive through a trait subscription (`O: From<I>`)
+const TRAIT_TAG: u64 = u64::MAX;
+impl From<u64> for Item {
+    fn from(k: u64) -> Self {
+        Item(TRAIT_TAG, k)
+    }
+}
+
+static NODUP: AtomicBool = AtomicBool::new(false);
+
+fn new_port() -> OutputPort<u64> {
+    #[cfg(feature = "output-port-v2")]
+    if NODUP.load(Ordering::Relaxed) {
+        return OutputPort::verif_with_duplicate_subscriptions(false);
+    }
+    OutputPort::default()
+}
 
 #[derive(Default)]
 struct Gate {
@@ -170,7 +196,7 @@ async fn run_scenario(line: &str) -> String {
         .map(|o| o.split_whitespace().collect::<Vec<_>>())
         .filter(|w| !w.is_empty())
         .collect();
-    let mut port_slot: Option<Arc<OutputPort<u64>>> = Some(Arc::new(OutputPort::default()));
+    let mut port_slot: Option<Arc<OutputPort<u64>>> = Some(Arc::new(new_port()));
     let mut parked: BTreeSet<u64> = BTreeSet::new();
     let mut selfkind: BTreeSet<u64> = BTreeSet::new();
     for w in &ops {
@@ -188,7 +214,7 @@ async fn run_scenario(line: &str) -> String {
     // self-subscribing ones are spawned by their SS operation
     let mut actors: BTreeMap<u64, Sub> = BTreeMap::new();
     for w in &ops {
-        if matches!(w[0], "S" | "K" | "H" | "G" | "O" | "R" | "RF" | "SS") {
+        if matches!(w[0], "S" | "ST" | "K" | "H" | "G" | "O" | "R" | "RF" | "SS") {
             let a = u(w[1]);
             if !actors.contains_key(&a) {
                 let gate = Arc::new(Gate::default());
@@ -215,6 +241,7 @@ async fn run_scenario(line: &str) -> String {
     }
     settle().await;
     let mut subs: Vec<u64> = Vec::new(); // subscription id -> actor
+    let mut tags: BTreeMap<usize, u64> = BTreeMap::new(); // subscription id -> tag, if not the id itself
     for w in &ops {
         match w[0] {
             "D" => drop(port_slot.take()),
@@ -240,6 +267,13 @@ async fn run_scenario(line: &str) -> String {
                 });
             }
             "T" => settle().await,
+            "ST" => {
+                let a = u(w[1]);
+                tags.insert(subs.len(), TRAIT_TAG);
+                subs.push(a);
+                let r = actors[&a].actor.clone().expect("ST before SS");
+                r.subscribe_to_port(port_slot.as_ref().expect("ST after D"));
+            }
             "SS" => {
                 let a = u(w[1]);
                 let conv = [u(w[2]), u(w[3]), u(w[4]), u(w[5])];
@@ -288,7 +322,8 @@ async fn run_scenario(line: &str) -> String {
     let mut out: Vec<String> = Vec::new();
     for (sid, a) in subs.iter().enumerate() {
         let rec = actors[a].rec.lock().unwrap();
-        out.push(coq_nums(rec.iter().filter(|(t, _)| *t == sid as u64).map(|(_, v)| *v)));
+        let tag = tags.get(&sid).copied().unwrap_or(sid as u64);
+        out.push(coq_nums(rec.iter().filter(|(t, _)| *t == tag).map(|(_, v)| *v)));
     }
     // tear down
     for s in actors.values() {
@@ -306,6 +341,9 @@ fn rt() -> tokio::runtime::Runtime {
 }
 
 fn main() {
+    if std::env::args().any(|a| a == "--nodup") {
+        NODUP.store(true, Ordering::Relaxed);
+    }
     if std::env::args().any(|a| a == "--cap") {
         // largest burst into a parked forwarder that arrives completely = ring size
         let count = |n: u64| -> u64 {
